@@ -16,6 +16,7 @@ import (
 	"strings"
 	"sync"
 	"syscall"
+	"testing"
 	"time"
 
 	_ "modernc.org/sqlite"
@@ -23,6 +24,7 @@ import (
 	"github.com/nuetzliches/hookaido/internal/app"
 	"github.com/nuetzliches/hookaido/internal/queue"
 	"github.com/nuetzliches/hookaido/internal/verifkit/runner"
+	"github.com/nuetzliches/hookaido/internal/verifkit/sched"
 	"github.com/nuetzliches/hookaido/internal/verifkit/verifcrash"
 	"github.com/nuetzliches/hookaido/internal/verifkit/verifcrashlibc"
 )
@@ -45,86 +47,10 @@ func runChild(scn string) {
 		os.Exit(4)
 	}
 	steps := scriptFor(scn)
-	var leases []leaseRef
-	used := map[int]bool{}
+	cs := &childState{a: a, used: map[int]bool{}}
 	verifcrash.Arm()
 	for i, st := range steps {
-		verifcrash.Log(fmt.Sprintf("START %d", i))
-		w := &ackWriter{ResponseRecorder: httptest.NewRecorder(), onAck: func(code int) { verifcrash.Log(fmt.Sprintf("ACK %d %d", i, code)) }}
-		lease := func(ix int) (string, bool) {
-			if ix < 0 {
-				for j := range leases {
-					if !used[j] {
-						ix = j
-						break
-					}
-				}
-				if ix < 0 {
-					return "", false
-				}
-			}
-			if ix >= len(leases) {
-				return "", false
-			}
-			used[ix] = true
-			return leases[ix].Lease, true
-		}
-		pull := func(op string, body any) {
-			b, _ := json.Marshal(body)
-			a.Pull.ServeHTTP(w, rawPost("/e/"+op, "Authorization: Bearer g1\nContent-Type: application/json", b))
-		}
-		switch st.Kind {
-		case "ingress":
-			a.Ingress.ServeHTTP(w, rawPost(st.Route, "X-Req: "+st.Payload, []byte(st.Payload)))
-		case "publish":
-			a.Admin.ServeHTTP(w, rawPost("/messages/publish", "X-Hookaido-Audit-Reason: verif\nContent-Type: application/json", publishBody(st.Items)))
-		case "dequeue":
-			pull("dequeue", map[string]any{"batch": st.Batch, "lease_ttl": "30s"})
-			var db dequeueBody
-			if json.Unmarshal(w.Body.Bytes(), &db) == nil {
-				for _, it := range db.Items {
-					p, _ := base64.StdEncoding.DecodeString(it.PayloadB64)
-					leases = append(leases, leaseRef{ID: it.ID, Lease: it.LeaseID, Route: it.Route, Payload: p, Attempt: it.Attempt})
-				}
-				verifcrash.Log(fmt.Sprintf("BODY %d %s", i, strings.TrimSpace(w.Body.String())))
-			}
-		case "ack", "nack", "nackdead", "extend":
-			l, ok := lease(st.Lease)
-			if !ok && st.Lease < 0 {
-				verifcrash.Log(fmt.Sprintf("SKIP %d", i))
-				continue
-			}
-			if !ok {
-				verifcrash.Log(fmt.Sprintf("SCRIPT-ERROR %d lease index %d not available", i, st.Lease))
-				os.Exit(5)
-			}
-			switch st.Kind {
-			case "ack":
-				pull("ack", map[string]any{"lease_id": l})
-			case "nack":
-				pull("nack", map[string]any{"lease_id": l, "delay": st.Delay})
-			case "extend":
-				pull("extend", map[string]any{"lease_id": l, "extend_by": "10s"})
-			default:
-				pull("nack", map[string]any{"lease_id": l, "dead": true, "reason": "boom"})
-			}
-		case "ackbatch":
-			var ids []string
-			for _, ix := range st.Leases {
-				l, ok := lease(ix)
-				if !ok {
-					verifcrash.Log(fmt.Sprintf("SCRIPT-ERROR %d lease index %d not available", i, ix))
-					os.Exit(5)
-				}
-				ids = append(ids, l)
-			}
-			pull("ack", map[string]any{"lease_ids": ids})
-		case "checkpoint":
-			if s, ok := a.Store.(*queue.SQLiteStore); ok {
-				queue.VerifCheckpoint(s)
-			}
-			verifcrash.Log(fmt.Sprintf("ACK %d 0", i))
-		}
+		cs.do(i, st)
 	}
 	verifcrash.Disarm()
 	verifcrash.Log(fmt.Sprintf("DONE %d", verifcrash.Count()))
@@ -132,6 +58,101 @@ func runChild(scn string) {
 		verifcrash.Log("LABELS " + strings.Join(verifcrash.Labels(), ","))
 	}
 	os.Exit(0) // no orderly shutdown: even the "clean" run abandons the database like a killed process
+}
+
+
+// childState is what one scripted client remembers between its steps.
+type childState struct {
+	a      *app.VerifApp
+	leases []leaseRef
+	used   map[int]bool
+	onAck  func(i, code int) // optional observer (concurrent scenarios log outcomes)
+}
+
+// do performs step i of the history through the real handlers and writes START/ACK/BODY/SKIP lines to the side log.
+func (cs *childState) do(i int, st step) {
+	a := cs.a
+	verifcrash.Log(fmt.Sprintf("START %d", i))
+	w := &ackWriter{ResponseRecorder: httptest.NewRecorder(), onAck: func(code int) {
+		verifcrash.Log(fmt.Sprintf("ACK %d %d", i, code))
+		if cs.onAck != nil {
+			cs.onAck(i, code)
+		}
+	}}
+	lease := func(ix int) (string, bool) {
+		if ix < 0 {
+			for j := range cs.leases {
+				if !cs.used[j] {
+					ix = j
+					break
+				}
+			}
+			if ix < 0 {
+				return "", false
+			}
+		}
+		if ix >= len(cs.leases) {
+			return "", false
+		}
+		cs.used[ix] = true
+		return cs.leases[ix].Lease, true
+	}
+	pull := func(op string, body any) {
+		b, _ := json.Marshal(body)
+		a.Pull.ServeHTTP(w, rawPost("/e/"+op, "Authorization: Bearer g1\nContent-Type: application/json", b))
+	}
+	switch st.Kind {
+	case "ingress":
+		a.Ingress.ServeHTTP(w, rawPost(st.Route, "X-Req: "+st.Payload, []byte(st.Payload)))
+	case "publish":
+		a.Admin.ServeHTTP(w, rawPost("/messages/publish", "X-Hookaido-Audit-Reason: verif\nContent-Type: application/json", publishBody(st.Items)))
+	case "dequeue":
+		pull("dequeue", map[string]any{"batch": st.Batch, "lease_ttl": "30s"})
+		var db dequeueBody
+		if json.Unmarshal(w.Body.Bytes(), &db) == nil {
+			for _, it := range db.Items {
+				p, _ := base64.StdEncoding.DecodeString(it.PayloadB64)
+				cs.leases = append(cs.leases, leaseRef{ID: it.ID, Lease: it.LeaseID, Route: it.Route, Payload: p, Attempt: it.Attempt})
+			}
+			verifcrash.Log(fmt.Sprintf("BODY %d %s", i, strings.TrimSpace(w.Body.String())))
+		}
+	case "ack", "nack", "nackdead", "extend":
+		l, ok := lease(st.Lease)
+		if !ok && st.Lease < 0 {
+			verifcrash.Log(fmt.Sprintf("SKIP %d", i))
+			return
+		}
+		if !ok {
+			verifcrash.Log(fmt.Sprintf("SCRIPT-ERROR %d lease index %d not available", i, st.Lease))
+			os.Exit(5)
+		}
+		switch st.Kind {
+		case "ack":
+			pull("ack", map[string]any{"lease_id": l})
+		case "nack":
+			pull("nack", map[string]any{"lease_id": l, "delay": st.Delay})
+		case "extend":
+			pull("extend", map[string]any{"lease_id": l, "extend_by": "10s"})
+		default:
+			pull("nack", map[string]any{"lease_id": l, "dead": true, "reason": "boom"})
+		}
+	case "ackbatch":
+		var ids []string
+		for _, ix := range st.Leases {
+			l, ok := lease(ix)
+			if !ok {
+				verifcrash.Log(fmt.Sprintf("SCRIPT-ERROR %d lease index %d not available", i, ix))
+				os.Exit(5)
+			}
+			ids = append(ids, l)
+		}
+		pull("ack", map[string]any{"lease_ids": ids})
+	case "checkpoint":
+		if s, ok := a.Store.(*queue.SQLiteStore); ok {
+			queue.VerifCheckpoint(s)
+		}
+		verifcrash.Log(fmt.Sprintf("ACK %d 0", i))
+	}
 }
 
 // ---- parent -----------------------------------------------------------------------------------------
@@ -239,16 +260,22 @@ func admissible(steps []step, evs []event) ([]world, string) {
 		}
 		return keys, ""
 	}
+	stopped := map[int]bool{} // per client: its history ends at its first operation that never started or is in flight
 	for i, st := range steps {
 		ev := evs[i]
+		if stopped[st.Thread] {
+			continue
+		}
 		if !ev.started {
-			break
+			stopped[st.Thread] = true
+			continue
 		}
 		if ev.skipped {
 			continue
 		}
 		inflight := !ev.acked || (st.Kind == "dequeue" && ev.body == "")
 		var next []world
+		dequeueWhy := ""
 		for _, w := range worlds {
 			switch st.Kind {
 			case "checkpoint":
@@ -291,11 +318,13 @@ func admissible(steps []step, evs []event) ([]world, string) {
 			case "dequeue":
 				if !inflight {
 					c := w.clone()
-					keys, why := applyDequeue(c, ev.body)
+					_, why := applyDequeue(c, ev.body)
 					if why != "" {
-						return nil, why
+						// with concurrent clients a world in which another client's in-flight enqueue was not applied
+						// cannot explain a dequeue that returned its message: that world is ruled out, not the run
+						dequeueWhy = why
+						continue
 					}
-					_ = keys
 					next = append(next, c)
 					continue
 				}
@@ -369,6 +398,12 @@ func admissible(steps []step, evs []event) ([]world, string) {
 				}
 			}
 		}
+		if len(next) == 0 {
+			if dequeueWhy != "" {
+				return nil, dequeueWhy
+			}
+			return nil, fmt.Sprintf("no admissible outcome left after step %d (%s)", i, st.Kind)
+		}
 		// lease bookkeeping is identical in all worlds (it comes from the acknowledged dequeue bodies)
 		if st.Kind == "dequeue" && !inflight {
 			var db dequeueBody
@@ -399,7 +434,7 @@ func admissible(steps []step, evs []event) ([]world, string) {
 		}
 		worlds = next
 		if inflight {
-			break
+			stopped[st.Thread] = true
 		}
 	}
 	return worlds, ""
@@ -600,6 +635,251 @@ func MaybeChild() {
 	if scn := os.Getenv("VERIF_CRASH_CHILD"); scn != "" {
 		runChild(scn)
 	}
+}
+
+// MaybeChildT is MaybeChild for harnesses that also use concurrent scenarios (their children need the *testing.T
+// for the scheduler's bubble).
+func MaybeChildT(t *testing.T) {
+	if scn := os.Getenv("VERIF_CRASH_CHILD"); strings.HasPrefix(scn, "conc:") {
+		runConcChild(t, strings.TrimPrefix(scn, "conc:"))
+	}
+	MaybeChild()
+}
+
+type concSchedule struct {
+	Schedule []int
+	K        int
+	Outcome  string
+	// Points: the crash points of this schedule whose execution prefix (sequence of scheduled operations up to the
+	// crash point) was not already reached by an earlier schedule - the same prefix is the same state, so crashing
+	// there again would repeat a run.
+	Points []int
+}
+
+// runConcChild: mode "explore" enumerates the schedules of the concurrent scenario (no crash) and writes them with
+// their number of crash points; mode "run" replays one schedule and dies at the configured crash point.
+func runConcChild(t *testing.T, name string) {
+	verifcrash.Init()
+	verifcrashlibc.Install()
+	dir := os.Getenv("VERIF_CRASH_DIR")
+	steps, off := concSteps(name)
+	threads := concScripts[name]()
+	mode := os.Getenv("VERIF_CRASH_MODE")
+	execN := 0
+	var hitAt []int // explore mode: number of scheduled operations before each crash point of the current execution
+	body := func(x *sched.Exec) {
+		if ns, err := strconv.ParseInt(os.Getenv("VERIF_CRASH_NOW"), 10, 64); err == nil {
+			// the bubble's clock starts in the year 2000; move it to the parent's present so that the restarted
+			// process (real clock) does not see the stored messages as older than the retention limits
+			if d := time.Unix(0, ns).Sub(time.Now()); d > 0 {
+				time.Sleep(d)
+			}
+		}
+		hitAt = hitAt[:0]
+		if mode == "explore" {
+			verifcrash.OnHit = func(n int) { hitAt = append(hitAt, len(x.Trace)) }
+		}
+		d := dir
+		if mode == "explore" {
+			execN++
+			d = filepath.Join(dir, "x")
+			os.RemoveAll(d)
+			os.MkdirAll(d, 0o755)
+		}
+		a, err := app.VerifBoot(app.VerifBootOptions{Dir: d, ConfigText: configText(18080)})
+		if err != nil {
+			x.Err = fmt.Errorf("child boot: %w", err)
+			return
+		}
+		if s, ok := a.Store.(*queue.SQLiteStore); ok {
+			for _, l := range queue.VerifSilentLocks(s) {
+				x.Silence(l)
+			}
+		}
+		verifcrash.Reset()
+		verifcrash.Arm()
+		for ti := range threads {
+			ti := ti
+			x.Go(fmt.Sprintf("client%d", ti), func() {
+				cs := &childState{a: a, used: map[int]bool{}, onAck: func(i, code int) { x.Logf("%d:%s=%d", i, steps[i].Kind, code) }}
+				for j, st := range threads[ti] {
+					cs.do(off[ti]+j, st)
+				}
+			})
+		}
+		x.Run()
+		x.Finish()
+		verifcrash.Disarm()
+		if mode == "explore" {
+			x.Logf("K=%d", verifcrash.Count())
+			a.Shutdown()
+		}
+	}
+	if mode == "explore" {
+		var out []concSchedule
+		seenPrefix := map[string]bool{}
+		bound, _ := strconv.Atoi(os.Getenv("VERIF_CRASH_BOUND"))
+		opt := sched.Options{Name: name, Bound: bound, Sleep: bound < 0, OnExecution: func(x *sched.Exec) {
+			sch := make([]int, len(x.Trace))
+			for i, p := range x.Trace {
+				sch[i] = p.Chosen
+			}
+			k := 0
+			for _, l := range x.Log {
+				fmt.Sscanf(l, "K=%d", &k)
+			}
+			var pts []int
+			ops := make([]string, len(x.Trace))
+			for i, p := range x.Trace {
+				ops[i] = p.Op
+			}
+			for n, l := range hitAt {
+				key := fmt.Sprintf("%d|%s", n+1, strings.Join(ops[:l], " "))
+				if !seenPrefix[key] {
+					seenPrefix[key] = true
+					pts = append(pts, n+1)
+				}
+			}
+			out = append(out, concSchedule{Schedule: sch, K: k, Outcome: strings.Join(x.Log, " "), Points: pts})
+		}}
+		if dl := os.Getenv("VERIF_CRASH_EXPLORE_DEADLINE"); dl != "" {
+			if ns, err := strconv.ParseInt(dl, 10, 64); err == nil {
+				opt.Deadline = time.Unix(0, ns)
+			}
+		}
+		res := sched.Explore(t, opt, body)
+		if res.InfraErr != nil {
+			fmt.Fprintln(os.Stderr, "conc explore:", res.InfraErr)
+			os.Exit(4)
+		}
+		if res.Failure != nil {
+			fmt.Fprintln(os.Stderr, "conc explore: deadlock:", res.Failure.Message, res.Failure.Trace)
+			os.Exit(4)
+		}
+		b, _ := json.Marshal(map[string]any{"schedules": out, "exhaustive": res.Exhaustive, "executions": res.Executions, "cut": res.SleepCut})
+		os.WriteFile(filepath.Join(dir, "schedules.json"), b, 0o644)
+		os.Exit(0)
+	}
+	var schedule []int
+	json.Unmarshal([]byte(os.Getenv("VERIF_CRASH_SCHEDULE")), &schedule)
+	res := sched.Explore(t, sched.Options{Name: name, Bound: -1, Replay: schedule, Once: true}, body)
+	if res.InfraErr != nil {
+		fmt.Fprintln(os.Stderr, "conc run:", res.InfraErr)
+		os.Exit(4)
+	}
+	verifcrash.Log(fmt.Sprintf("DONE %d", verifcrash.Count()))
+	os.Exit(0)
+}
+
+// EnumerateConc: for every schedule of the concurrent scenario (preemption bound, or unbounded under sleep sets when
+// bound < 0) and every crash point of that schedule, kill the child there and judge the restart.
+func EnumerateConc(r *runner.Run, name string, bound int, budget time.Duration) {
+	scratch := runner.Scratch()
+	steps, _ := concSteps(name)
+	deadline := time.Now().Add(budget)
+	d0 := filepath.Join(scratch, "conc-"+name+"-explore")
+	nowEnv := fmt.Sprintf("VERIF_CRASH_NOW=%d", time.Now().UnixNano())
+	_, out, err := spawn("conc:"+name, d0, 0, "VERIF_CRASH_MODE=explore", nowEnv, fmt.Sprintf("VERIF_CRASH_BOUND=%d", bound),
+		fmt.Sprintf("VERIF_CRASH_EXPLORE_DEADLINE=%d", time.Now().Add(budget/3).UnixNano()), "GOMAXPROCS=1")
+	if err != nil {
+		r.Infra("%s: schedule enumeration failed: %v %s", name, err, out)
+		return
+	}
+	var doc struct {
+		Schedules  []concSchedule
+		Exhaustive bool
+		Executions int
+		Cut        int
+	}
+	b, err := os.ReadFile(filepath.Join(d0, "schedules.json"))
+	if err != nil || json.Unmarshal(b, &doc) != nil || len(doc.Schedules) == 0 {
+		r.Infra("%s: no schedules enumerated: %v %s", name, err, out)
+		return
+	}
+	outcomes := map[string]bool{}
+	total, allPairs := 0, 0
+	for _, s := range doc.Schedules {
+		outcomes[s.Outcome] = true
+		total += len(s.Points)
+		allPairs += s.K
+	}
+	if !doc.Exhaustive {
+		r.NotExhaustive(name + ": schedule enumeration hit its time budget")
+	}
+	type job struct{ si, n int }
+	jobs := make(chan job, total)
+	for si, s := range doc.Schedules {
+		for _, n := range s.Points {
+			jobs <- job{si, n}
+		}
+	}
+	close(jobs)
+	var mu sync.Mutex
+	var wg sync.WaitGroup
+	done, skipped := 0, 0
+	classes := map[string]int{}
+	for w := 0; w < 16; w++ {
+		wg.Add(1)
+		go func(w int) {
+			defer wg.Done()
+			for j := range jobs {
+				if time.Now().After(deadline) {
+					mu.Lock()
+					skipped++
+					mu.Unlock()
+					continue
+				}
+				sch, _ := json.Marshal(doc.Schedules[j.si].Schedule)
+				extra := []string{"VERIF_CRASH_MODE=run", "VERIF_CRASH_SCHEDULE=" + string(sch), "GOMAXPROCS=1", nowEnv}
+				dir := filepath.Join(scratch, fmt.Sprintf("conc-%s-w%d", name, w))
+				killed, out, err := spawn("conc:"+name, dir, j.n, extra...)
+				if err != nil || !killed {
+					r.Infra("%s: schedule %d crash point %d: child was not killed (%v) %s", name, j.si, j.n, err, out)
+					continue
+				}
+				evs, _, _ := parseLog(filepath.Join(dir, "side.log"), len(steps))
+				why := judge(dir, steps, evs, 22003+3*w)
+				var fl []string
+				for i, e := range evs {
+					if e.started && !e.acked && !e.skipped {
+						fl = append(fl, steps[i].Kind)
+					}
+				}
+				sort.Strings(fl)
+				cls := "in-flight:" + strings.Join(fl, "+")
+				mu.Lock()
+				done++
+				classes[cls]++
+				mu.Unlock()
+				r.Add("evaluations", 1)
+				r.Distinct(name + ":" + cls)
+				if why != "" {
+					r.Violation("crash:"+name+":"+cls, fmt.Sprintf("[%s] schedule %v, killed before crash point %d/%d (%s): %s", name, doc.Schedules[j.si].Schedule, j.n, doc.Schedules[j.si].K, cls, why),
+						map[string]any{"engine": "crash+sched", "scenario": name, "schedule": doc.Schedules[j.si].Schedule, "crash_at": j.n},
+						func() bool {
+							d2 := filepath.Join(scratch, fmt.Sprintf("conc-%s-recheck-w%d", name, w))
+							k2, _, e2 := spawn("conc:"+name, d2, j.n, extra...)
+							if e2 != nil || !k2 {
+								return false
+							}
+							ev2, _, _ := parseLog(filepath.Join(d2, "side.log"), len(steps))
+							return judge(d2, steps, ev2, 22003+3*w) != ""
+						})
+				}
+			}
+		}(w)
+	}
+	wg.Wait()
+	if skipped > 0 {
+		r.NotExhaustive(fmt.Sprintf("%s: time budget reached, %d of %d (schedule, crash point) pairs not run", name, skipped, total))
+	}
+	r.Add("states", int64(done))
+	red := fmt.Sprintf("preemption bound %d", bound)
+	if bound < 0 {
+		red = "unbounded, sleep-set reduced"
+	}
+	r.Set("concurrent:"+name, map[string]any{"clients": len(concScripts[name]()), "schedules": len(doc.Schedules), "schedule_space": red,
+		"executions_cut_as_redundant": doc.Cut, "distinct_schedule_outcomes": len(outcomes), "schedule_crash_pairs": allPairs, "pairs_with_distinct_execution_prefix": total, "pairs_run": done, "in_flight_classes": classes})
 }
 
 // Deadline, when set, ends the enumeration between scenarios (reported as not exhaustive, never as a failure).
